@@ -863,6 +863,12 @@ def generate_nearmiss_yieldend(rng):
         "try { loop { %s; } } catch (nomatch) { %s loop { case { end -> { %s } %s -> {} } } }" % (A, act(), y(), B),
         "foreach { loop { case { %s -> {} end -> { %s } } } } do { n0 = [n0 + 1]; }" % (A, y()),
         "loop { s0 += %s; case { end -> { %s } else -> {} } }" % (A if A.startswith("/") else "/%s/" % a, y()),
+        # a yield behind an open-ended regex made of inverted sets: the else path that carries the yield stands for a *set* of
+        # symbols ({terminator, end-of-input}) which the states behind it split
+        "loop { /[^%s][^%s]*/; %s }" % (b, a, y()),
+        "loop { /[^%s][^%s]*/; %s }" % (b, a, y()),
+        "loop { /[^%s%s]+/; %s optional { %s; } }" % (a, b, y(), B),
+        "loop { s0 += /[^%s][^%s]*/; %s }" % (b, a, y()),
     ]
     prog = r.choice(shapes)
     lead = r.choice(("", "", "%s; " % B))
@@ -871,7 +877,7 @@ def generate_nearmiss_yieldend(rng):
     aa = a.encode()
     bb = b.encode()
     samples = [pfx, pfx + aa, pfx + aa * 2, pfx + aa + bb, pfx + aa * 3 + bb, pfx + aa + bb + aa, pfx + b" ", pfx + aa + b" " + aa, pfx + bb,
-               pfx + aa * 5]
+               pfx + aa * 5, pfx + b"zz" + aa, pfx + b"z" + aa + b"z" + bb, pfx + b"zy" + aa + aa + b"x"]
     return {"source": src, "need": ["-fyield-support", "-feof-support"], "canaries": {}, "samples": [x.hex() for x in samples],
             "near_miss": True, "has_strings": True}
 
